@@ -111,8 +111,15 @@ def impact_job(name, n, T, twin=False, max_s=800, xconc=False):
         cells['x', i], cells['y', i] = x[i], y[i]
       for j in range(T):
         cells['x', n + j], cells['y', n + j] = xt[j], yt[j]
+      # the experiment frame is presented in the split layout of C06: two
+      # geos per group, an unassigned geo, unassigned-period rows, shuffled
+      for k in 'wuv':
+        for d in range(n + T):
+          cells[k, d] = symx.real('%s%d' % (k, d))
+      for i in range(4):
+        cells['z', i] = symx.real('z%d' % i)
       m = TBRmod.TBR(use_cooldown=False)
-      m.fit(c06.frame(cells, n, T, 0, 'A'), 'response')
+      m.fit(c06.frame(cells, n, T, 0, 'B'), 'response')
       summ = m.summary(level=sig, tails=1, report='last').iloc[-1]
     finally:
       (TBRmod.sm, TBRmod.sp, DG.stats, DG.np,
